@@ -263,7 +263,16 @@ var trickyStrings = []string{
 	"a: b", "a #b", " lead", "trail ", "it's", `say "hi"`, "ü-ö", "tab\there", "multi\nline", "[x]", "{y}", "a,b",
 	"*star", "&anc", "!tag", "|pipe", ">fold", "%pct", "@at", "`tick", "- dash", "? q", ": c", "k:", "#hash", "'", `"`,
 	`back\slash`, "2001-01-01", "",
+	"k=v", "a:b", "x y", "/a/b,c", `a"b`, "a,b,c", ",", "a,", ",a", "k=v,w", "k=\"v,w\"",
 }
+
+// mount options whose text contains separators: each is ONE option and must arrive as one
+var specialOptions = []string{
+	`context="system_u:object_r:container_file_t:s0:c100,c200"`, "bind,ro", "ro,", ",", "", "a,b,c", "uid=0,gid=0",
+	"size=64k,mode=1777", "lowerdir=/a:/b", "x y", `"quoted"`, "k=v=w", "'", ",ro", "x-mount.mkdir=0755", "fscontext='u:r:t:s0:c1,c2'",
+}
+
+func hasSeparator(s string) bool { return s == "" || strings.ContainsAny(s, ",:= \"'") }
 
 func genText() *rapid.Generator[string] {
 	return rapid.OneOf(
@@ -273,7 +282,8 @@ func genText() *rapid.Generator[string] {
 	)
 }
 
-var devLeaf = []string{"null", "zero", "nri-null", "nri-zero", "fuse", "dri/card0", "net/tun", "vfio/7", "dev0", "dev1", "x y", "a:b", "q#r", "yes"}
+var devLeaf = []string{"null", "zero", "nri-null", "nri-zero", "fuse", "dri/card0", "net/tun", "vfio/7", "dev0", "dev1", "x y", "a:b", "q#r", "yes",
+	"a,b", "k=v", `q"r`, "it's", "c:0:1", "bus/usb/001,002"}
 
 func u32opt(t *rapid.T, label string) *uint32 {
 	switch rapid.IntRange(0, 5).Draw(t, label) {
@@ -305,9 +315,11 @@ func genDev() *rapid.Generator[Dev] {
 }
 
 var cdiNames = []string{"vendor0.com/device=null", "vendor0.com/device=zero", "vendor0.com/device=dev0", "vendor1.com/device=dev0",
-	"vendor1.com/device=dev1", "vendor0.com/device=all", "nvidia.com/gpu=0", "nvidia.com/gpu=GPU-8a3f", "example.org/net=eth_0", "k8s.device-plugin.x/class=yes"}
+	"vendor1.com/device=dev1", "vendor0.com/device=all", "nvidia.com/gpu=0", "nvidia.com/gpu=GPU-8a3f", "example.org/net=eth_0", "k8s.device-plugin.x/class=yes",
+	"vendor.com/class=a,b", "vendor.com/class=a:b", "vendor.com/class=a b", `vendor.com/class="q"`, "vendor.com/a/b=c=d", "vendor.com/class=it's"}
 
-var mntDest = []string{"/host-home", "/mnt/a", "/mnt/b", "/var/lib/x", "/etc/conf.d", "/data", "/mnt/with space", "/mnt/a: b", "/mnt/#x", "/opt/ü"}
+var mntDest = []string{"/host-home", "/mnt/a", "/mnt/b", "/var/lib/x", "/etc/conf.d", "/data", "/mnt/with space", "/mnt/a: b", "/mnt/#x", "/opt/ü",
+	"/mnt/a,b", "/mnt/k=v", `/mnt/q"r`, "/mnt/c:1", "/mnt/it's"}
 
 func genMnt() *rapid.Generator[Mnt] {
 	return rapid.Custom(func(t *rapid.T) Mnt {
@@ -321,7 +333,10 @@ func genMnt() *rapid.Generator[Mnt] {
 		case 1:
 			m.Options = []string{}
 		default:
-			m.Options = rapid.SliceOfN(rapid.OneOf(rapid.SampledFrom([]string{"bind", "ro", "rw", "rbind", "rprivate", "nosuid", "mode=755", "size=64k"}), genText()), 1, 4).Draw(t, "opts")
+			m.Options = rapid.SliceOfN(rapid.OneOf(
+				rapid.SampledFrom([]string{"bind", "ro", "rw", "rbind", "rprivate", "nosuid", "mode=755", "size=64k"}),
+				rapid.SampledFrom(specialOptions), rapid.SampledFrom(specialOptions),
+				genText()), 1, 4).Draw(t, "opts")
 		}
 		return m
 	})
@@ -416,7 +431,8 @@ var illKinds = map[string][]string{
 	famRlim: {"unknown_type", "hard_lt_soft", "unknown_type", "hard_lt_soft", "unknown_type", "hard_lt_soft", "scalar", "mapping", "elem_type", "broken_syntax", "str_in_int", "out_of_range"},
 }
 
-var unknownRlimits = []string{"FOO", "RLIMIT_FOO", "nofiles", "", "RLIMIT_", "RLIMIT", "LIMIT_NOFILE", "NOFILE_", "rlimit_core_", "cpus", "memory"}
+var unknownRlimits = []string{"NOFILE,NPROC", "RLIMIT_NOFILE:1", "NOFILE=1", "RLIMIT NOFILE", "RLIMIT_/NOFILE", `"NOFILE"`, "NOFILE ", "RLIMIT_NOFILE,",
+	"FOO", "RLIMIT_FOO", "nofiles", "", "RLIMIT_", "RLIMIT", "LIMIT_NOFILE", "NOFILE_", "rlimit_core_", "cpus", "memory"}
 
 var nullishTexts = []string{"", "null", "~", " ", "\n", "# nothing here\n"}
 
